@@ -3,11 +3,21 @@
 package grpc
 
 import (
+	"github.com/apache/skywalking-banyandb/api/common"
+	commonv1 "github.com/apache/skywalking-banyandb/api/proto/banyandb/common/v1"
+	databasev1 "github.com/apache/skywalking-banyandb/api/proto/banyandb/database/v1"
+	measurev1 "github.com/apache/skywalking-banyandb/api/proto/banyandb/measure/v1"
+	modelv1 "github.com/apache/skywalking-banyandb/api/proto/banyandb/model/v1"
+	streamv1 "github.com/apache/skywalking-banyandb/api/proto/banyandb/stream/v1"
 	"github.com/apache/skywalking-banyandb/banyand/metadata/schema"
+	"github.com/apache/skywalking-banyandb/pkg/logger"
 	"github.com/apache/skywalking-banyandb/pkg/node"
+	"github.com/apache/skywalking-banyandb/pkg/partition"
+	pbv1 "github.com/apache/skywalking-banyandb/pkg/pb/v1"
 )
 
 // This file is injected with `go build -overlay` by the /verif C16 check; it is not part of /repo.
+// It has no logic of its own: it builds the real liaison objects around their unexported constructors.
 
 // VerifC16NodeRegistry wraps a selector into the real clusterNodeService without a queue pipeline
 // (NewClusterNodeRegistry only adds the pipeline registration), and also returns it as the handler
@@ -15,4 +25,67 @@ import (
 func VerifC16NodeRegistry(sel node.Selector) (NodeRegistry, schema.EventHandler) {
 	s := &clusterNodeService{sel: sel}
 	return s, s
+}
+
+// VerifC16Family is one tag family of a client-supplied write spec.
+type VerifC16Family struct {
+	Name string
+	Tags []string
+}
+
+// VerifC16Navigate registers a group and a stream ('s') or measure ('m') with the liaison's real group / entity /
+// sharding-key repositories (through their schema event handlers) and routes one write through the real
+// streamService.buildSpecLocator+navigate resp. measureService.buildSpecLocators+navigate.
+// hasSpec=false is a write without tag_family_spec / data_point_spec.
+func VerifC16Navigate(kind byte, shardNum uint32, name string, families []*databasev1.TagFamilySpec, entity, shardingKey []string,
+	hasSpec bool, spec []VerifC16Family, write []*modelv1.TagFamilyForWrite,
+) (pbv1.EntityValues, common.ShardID, error) {
+	l := logger.GetLogger("verif-c16")
+	gr := &groupRepo{log: l, resourceOpts: make(map[string]*commonv1.ResourceOpts), inflight: make(map[string]*groupInflight)}
+	er := &entityRepo{
+		log: l, entitiesMap: make(map[identity]partition.Locator), measureMap: make(map[identity]*databasev1.Measure),
+		streamMap: make(map[identity]*databasev1.Stream), traceMap: make(map[identity]*databasev1.Trace), traceIDIndexMap: make(map[identity]int),
+	}
+	sr := &shardingKeyRepo{log: l, shardingKeysMap: make(map[identity]partition.Locator)}
+	md := &commonv1.Metadata{Group: "g", Name: name}
+	cat := commonv1.Catalog_CATALOG_STREAM
+	if kind == 'm' {
+		cat = commonv1.Catalog_CATALOG_MEASURE
+	}
+	gr.OnAddOrUpdate(schema.Metadata{TypeMeta: schema.TypeMeta{Kind: schema.KindGroup}, Spec: &commonv1.Group{
+		Metadata: &commonv1.Metadata{Name: "g"}, Catalog: cat, ResourceOpts: &commonv1.ResourceOpts{ShardNum: shardNum},
+	}})
+	if kind == 'm' {
+		m := &databasev1.Measure{Metadata: md, Entity: &databasev1.Entity{TagNames: entity}, TagFamilies: families}
+		if shardingKey != nil {
+			m.ShardingKey = &databasev1.ShardingKey{TagNames: shardingKey}
+		}
+		ev := schema.Metadata{TypeMeta: schema.TypeMeta{Kind: schema.KindMeasure}, Spec: m}
+		er.OnAddOrUpdate(ev)
+		sr.OnAddOrUpdate(ev)
+		ms := &measureService{discoveryService: &discoveryService{groupRepo: gr, entityRepo: er, shardingKeyRepo: sr, kind: schema.KindMeasure}, l: l}
+		var dps *measurev1.DataPointSpec
+		if hasSpec {
+			dps = &measurev1.DataPointSpec{}
+			for _, f := range spec {
+				dps.TagFamilySpec = append(dps.TagFamilySpec, &measurev1.TagFamilySpec{Name: f.Name, TagNames: f.Tags})
+			}
+		}
+		el, sl := ms.buildSpecLocators(md, dps)
+		return ms.navigate(md, &measurev1.WriteRequest{DataPoint: &measurev1.DataPointValue{TagFamilies: write}}, el, sl)
+	}
+	ev := schema.Metadata{TypeMeta: schema.TypeMeta{Kind: schema.KindStream}, Spec: &databasev1.Stream{
+		Metadata: md, Entity: &databasev1.Entity{TagNames: entity}, TagFamilies: families,
+	}}
+	er.OnAddOrUpdate(ev)
+	sr.OnAddOrUpdate(ev)
+	ss := &streamService{discoveryService: &discoveryService{groupRepo: gr, entityRepo: er, shardingKeyRepo: sr, kind: schema.KindStream}, l: l}
+	var sp []*streamv1.TagFamilySpec
+	if hasSpec {
+		sp = []*streamv1.TagFamilySpec{}
+		for _, f := range spec {
+			sp = append(sp, &streamv1.TagFamilySpec{Name: f.Name, TagNames: f.Tags})
+		}
+	}
+	return ss.navigate(md, &streamv1.WriteRequest{Element: &streamv1.ElementValue{TagFamilies: write}}, ss.buildSpecLocator(md, sp))
 }
